@@ -47,9 +47,11 @@ theorem C03_read_fuel_quiet (inj : BSt → Nat → BSt) (i : Nat)
     readExits inj tsNow i f total s = true := by
   refine readExits_of_measure inj tsNow i (fun x => (x.th i).qStmts.length) ?_ f total s hf
   intro x st rest hx
-  have h1 := hq (readOne x i st rest)
-  rw [readOne_qStmts x i st rest (lt_of_qStmts_cons hx)] at h1
-  show ((inj (readOne x i st rest) 3).th i).qStmts.length < (x.th i).qStmts.length
+  have h1 := hq (readOneF x i st rest)
+  have hF : (readOneF x i st rest).th i = (readOne x i st rest).th i := by
+    simp only [BSt.th, (readOneF_eq x i st rest).2.1]
+  rw [hF, readOne_qStmts x i st rest (lt_of_qStmts_cons hx)] at h1
+  show ((inj (readOneF x i st rest) 3).th i).qStmts.length < (x.th i).qStmts.length
   rw [hx, List.length_cons]
   omega
 
